@@ -150,7 +150,8 @@ class ModuleSweep:
         for opts in option_valuations(self.mod):
             for n in list(range(0, self.nmax + 1)) + ['long']:
                 if time.time() - self.t0 > self.time_limit:
-                    self.undecided.append(dict(opts=repr(opts), n=n, why='module time limit'))
+                    self.undecided.append(dict(opts=repr(opts) if opts else '', n=n, why='module time limit'))
+                    self.units.append(dict(opts=repr(opts) if opts else '', n=n, status='module time limit', paths=0, accept=0, secs=0.0))
                     continue
                 self.unit(f, opts, n)
         if self.undecided:
@@ -213,27 +214,30 @@ class ModuleSweep:
 
     def unit(self, f, opts, n):
         t0 = time.time()
-        ex = explore(f, lambda ctx: [raw_input()], n, budget=4000 if self.tier == 'quick' else 20000,
-                     time_limit=min(90 if self.tier == 'quick' else 600, max(5, self.time_limit - (time.time() - self.t0))),
-                     kwargs=opts, long_bound=self.nmax)
-        self.stats['paths'] += len(ex.paths)
-        self.stats['checks'] += ex.checks
-        self.stats['fast'] += ex.fast
-        self.stats['unknowns'] += ex.unknowns
-        acc = 0
-        for p in ex.paths:
+        counts = dict(paths=0, acc=0)
+
+        def on_path(p):
+            counts['paths'] += 1
             try:
                 if p.kind == 'raise':
                     self.on_raise(p, opts, n)
                 else:
-                    acc += 1
+                    counts['acc'] += 1
                     self.on_return(p, opts, n)
             except Unsupported as u:
                 self.undecided.append(dict(opts=repr(opts), n=n, why='post-check: ' + str(u)))
             except z3.Z3Exception as e:
                 self.undecided.append(dict(opts=repr(opts), n=n, why='post-check z3: ' + str(e)[:60]))
+        ex = explore(f, lambda ctx: [raw_input()], n, budget=4000 if self.tier == 'quick' else 20000,
+                     time_limit=min(90 if self.tier == 'quick' else 600, max(5, self.time_limit - (time.time() - self.t0))),
+                     kwargs=opts, long_bound=self.nmax, on_path=on_path)
+        self.stats['paths'] += counts['paths']
+        self.stats['checks'] += ex.checks
+        self.stats['fast'] += ex.fast
+        self.stats['unknowns'] += ex.unknowns
+        acc = counts['acc']
         self.stats['accept_paths'] += acc
-        u = dict(opts=repr(opts) if opts else '', n=n, status=ex.status, paths=len(ex.paths), accept=acc,
+        u = dict(opts=repr(opts) if opts else '', n=n, status=ex.status, paths=counts['paths'], accept=acc,
                  secs=round(time.time() - t0, 3))
         self.units.append(u)
         if ex.status != 'ok':
